@@ -24,6 +24,18 @@ CHECKS = {
    text="All unary/binary operators over 90 constant operands (every untyped kind, typed constants, T(min|max|0|1) for every integer type, >64-bit, fractional, 1e39/1e309), conversions to 34 types, constant-capable builtins and unsafe, depth-2 nesting over a reduced alphabet; for the root and every sub-expression the builder's value is compared with Info.Types[e].Value (presence and exact equality); constant expressions go/types rejects must not be folded. Deviations are pinned per class in known/C04.<tier>.tsv.",
    note="Trusted: go/types 1.23.5 constant arithmetic; parallel IR/syntax traversal pairs nodes only when shapes agree; untyped operands converted by their context are not compared (go/types reports the converted value).",
    design="§4 C04"),
+ "C14": dict(
+   category="exploration",
+   technique="bounded exhaustive enumeration of types x zero-value producers on the real builder, oracle = go/types on emitted text + reported element type",
+   text="Every type of the bounded grammar (depth 2 full / depth 3 reduced over 26 leaves incl. named, alias, imported with unexported fields, instantiated generics; special shapes) through the four producers of zero values (ZeroLit in a typed declaration, omitted optional argument, ReturnErr padding, T()); the emitted use must type-check, the reported type must be T, the expression must be a zero form. Complete within the bound.",
+   note="Trusted: go/types 1.23.5; syntactic zero-form judgement. The inferred form `x := <zero>` is deliberately not part of this check (the property speaks of places where a value of type T is expected); reported-vs-Go types of inferred declarations are C03's business.",
+   design="§4 C14"),
+ "C19": dict(
+   category="model_checking",
+   technique="explicit-state exploration of all Set/Delete/Iterate-with-deletion sequences up to a length bound on the real typeutil.Map with hash-colliding keys, against a reference association list; plus all-pairs Identical=>Hash over a 5.7k-type universe",
+   text="All operation sequences (quick: length<=4 over 7 keys and length<=5 over 5 keys; thorough: <=5 over 7 and <=6 over 4) where the keys are 3 identity classes that collide under the real hash (two distinct objects each) plus a non-colliding key; after every step At/Len/Keys/Iterate/KeysString are compared with a reference association list under types.Identical, including deletion during iteration. All ordered pairs of a 5.7k-type universe (duplicated objects, permuted interfaces/unions, renamed type parameters, separate instantiations): Identical => equal Hash, no panic.",
+   note="Trusted: types.Identical; the reference list; pointer-valued hashes of named types make only structural collisions reproducible, so colliding keys are chosen among unnamed types.",
+   design="§4 C19"),
 }
 
 NOT_APPLICABLE = {
